@@ -930,3 +930,114 @@ Qed.
 (* the examples are instances of the statement: `declaration_fault` holds of them *)
 Example C03_ex_declaration_fault : declaration_fault dfx6 (EBuild (RedeclarationAsParameter s_a)) (7%nat, 8%nat).
 Proof. exists dfx6_table, (berr 7 8 (RedeclarationAsParameter s_a)). repeat split; [exact C03_ex_redeclaration_as_parameter | exact (le_n 8)]. Qed.
+
+(* ------------------------------------------------------------------------------------------ *)
+(* SYNTAX FAULTS, family A: a statement lost its `;`.  Proofs/SynFaults.v (read its header) describes a program with exactly
+   one such fault as a zipper `fprog` through the abstract syntax: one assignment or call statement, at any depth of one
+   procedure body, stands without its `;` (leaves FAsg / FCal); `orig_prog p` is the valid program it stems from (the `;` put
+   back), `fflatten p` its token kinds, `gap_prog p` the index of the token in front of the gap, `fexpected p` the tree SPL's
+   parser is to build, `fprog_ok p` = the original is a valid program and the token behind the gap is not `;` (then nothing
+   would be missing).  The token behind the gap is then `}`, `else` or the first token of a statement. *)
+From Spl Require Import Proofs.SynFaults Proofs.SynFaultsStmt Proofs.SynFaultsProg Proofs.SynFaultsText Proofs.SynFaultsSem.
+
+(* the faulty token vector is the original one without the `;` behind token number gap_prog *)
+Theorem C03_missing_semicolon_tokens : forall p,
+  ins (S (gap_prog p)) Semic (fflatten p) = flatten (orig_prog p) /\ (gap_prog p < List.length (fflatten p))%nat.
+Proof. intros p. split; [apply fflatten_ins | apply gap_prog_lt]. Qed.
+Print Assumptions C03_missing_semicolon_tokens.
+
+(* tree level: on ANY token vector with these kinds the parser returns the mandated tree of the original - the node of the
+   statement that lost its `;` ends one token earlier, everything behind the gap is shifted by one - with exactly ONE error:
+   MissingTrailingSemic, the EMPTY token range at the token in front of the gap *)
+Theorem C03_missing_semicolon : forall p toks,
+  fprog_ok p = true -> map tk toks = fflatten p ++ [Eof] ->
+  parse toks = Done (fexpected p) /\
+  tree_errors (fexpected p) = [ {| e_s := gap_prog p; e_e := gap_prog p; e_m := EParse MissingTrailingSemic |} ].
+Proof. intros p toks Hok Hk. split; [exact (fparse p toks Hok Hk) | exact (fexpected_errors p)]. Qed.
+Print Assumptions C03_missing_semicolon.
+
+(* no semantic follow-up: if the original program is well-typed, the tree of the faulty one is well-typed (with respect to
+   the table build makes for it), so build and analyze return it unchanged *)
+Theorem C03_missing_semicolon_analysis : forall p G,
+  fprog_ok p = true -> well_typed (expected (orig_prog p)) G ->
+  exists G', well_typed (fexpected p) G' /\ build_res (fexpected p) = ROk (fexpected p, G') /\
+             analyze_res (fexpected p) G' = ROk (fexpected p).
+Proof.
+  intros p G Hok Hwt. destruct (orig_well_typed p G Hok Hwt) as [G' Hwt']. exists G'. split; [exact Hwt'|].
+  split; [apply build_sound, (proj1 Hwt') | apply analyze_sound, (proj2 Hwt')].
+Qed.
+Print Assumptions C03_missing_semicolon_analysis.
+
+(* from texts on: every text that lexes to the tokens of a well-typed program minus the `;` of one assignment or call gets
+   exactly ONE diagnostic, `missing trailing ;`, with the empty byte range at the END of the token in front of the gap *)
+Theorem C03_missing_semicolon_text : forall p t G toks tok,
+  fprog_ok p = true -> well_typed (expected (orig_prog p)) G ->
+  lex t = Some toks -> map tk toks = fflatten p ++ [Eof] -> nth_error toks (gap_prog p) = Some tok ->
+  diagnostics t = Done [(te tok, te tok, EParse MissingTrailingSemic)].
+Proof. exact missing_semicolon_text_orig. Qed.
+Print Assumptions C03_missing_semicolon_text.
+
+(* ... the token in front of the gap exists *)
+Theorem C03_missing_semicolon_token : forall p toks,
+  map tk toks = fflatten p ++ [Eof] -> exists tok, nth_error toks (gap_prog p) = Some tok.
+Proof. exact gap_token. Qed.
+Print Assumptions C03_missing_semicolon_token.
+
+(* non-vacuity: the example program ex_p with the `;` of `j := j + 1;` (in the block of the while loop of main, in front of
+   `}`) taken out; and with the `;` of `x[j] := -j;` (in front of the statement `j := ...`) taken out *)
+Definition sfx_pre : list adecl := Eval vm_compute in firstn 2 (a_decls ex_p).
+Definition sfx_asg1 := SAsg (AIndex (nm s_x) c0 (e_f (FVar (nm s_j))) c0) c0 (e_f (FNeg c0 (FVar (nm s_j)))) c0.
+Definition sfx_asg2 := SAsg (nm s_j) c0 (CAdd (ABin (AMul (MFac (FVar (nm s_j)))) c0 APlus (MFac (lit 1)))) c0.
+Definition sfx_call := SCal c0 s_p c0 (Some (e_f (FVar (nm s_x)), [(c0, CAdd (AMul (MBin (MFac (FVar (nm s_j))) c0 MTimes (lit 2))))])) c0 c0.
+Definition sfx_main (blk : fstmts) : fdecl :=
+  FProc c0 c0 s_main c0 None c0 c0
+    [ {| v_c1 := c0; v_c2 := c0; v_x := s_x; v_c3 := c0; v_t := TName c0 s_v; v_c4 := c0 |};
+      {| v_c1 := c0; v_c2 := c0; v_x := s_j; v_c3 := c0; v_t := TName c0 s_int; v_c4 := c0 |} ]
+    (FLater (SAsg (AName c1 s_j) c0 (e_f (lit 0)) c0)
+       (FHere (FWhl c0 c0 (CBin (AMul (MFac (FVar (nm s_j)))) c0 CNe (AMul (MFac (lit 3)))) c0 (FBlk c0 blk c0)) (SCons sfx_call SNil))) c0.
+Definition sfx1 : fprog :=
+  {| fp_pre := sfx_pre; fp_post := []; fp_ceof := c0;
+     fp_decl := sfx_main (FLater sfx_asg1 (FHere (FAsg (nm s_j) c0 (CAdd (ABin (AMul (MFac (FVar (nm s_j)))) c0 APlus (MFac (lit 1))))) SNil)) |}.
+Definition sfx2 : fprog :=
+  {| fp_pre := sfx_pre; fp_post := []; fp_ceof := c0;
+     fp_decl := sfx_main (FHere (FAsg (AIndex (nm s_x) c0 (e_f (FVar (nm s_j))) c0) c0 (e_f (FNeg c0 (FVar (nm s_j))))) (SCons sfx_asg2 SNil)) |}.
+Example C03_ex_missing_semicolon_hyps :
+  orig_prog sfx1 = ex_p /\ orig_prog sfx2 = ex_p /\ fprog_ok sfx1 = true /\ fprog_ok sfx2 = true /\
+  gap_prog sfx1 = 90%nat /\ gap_prog sfx2 = 84%nat.
+Proof. vm_compute. repeat split; reflexivity. Qed.
+Example C03_ex_missing_semicolon_wt : well_typed (expected (orig_prog sfx1)) ex_table /\ well_typed (expected (orig_prog sfx2)) ex_table.
+Proof.
+  replace (orig_prog sfx2) with ex_p by (vm_compute; reflexivity). replace (orig_prog sfx1) with ex_p by (vm_compute; reflexivity).
+  change (expected ex_p) with ex_tree. split; exact (conj C03_ex_wf C03_ex_wt).
+Qed.
+(* what the model computes (evaluated, independently of the theorems) ... *)
+Example C03_ex_missing_semicolon_text :
+  diag_of "type v=array[3]of int;proc p(ref a:v,n:int){var i:int;i:=a[n]+1;if(i<2)p(a,i);}proc main(){var x:v;var j:int;// note
+j:=0;while(j#3){x[j]:=-j;j:=j+1}p(x,j*2);}" = Done [(148, 148, EParse MissingTrailingSemic)] /\
+  diag_of "type v = array [3] of int; proc p(ref a: v, n: int) { var i: int; i := a[n] + 1; if (i < 2) p(a, i); }
+proc main() { var x: v; var j: int; // note
+  j := 0; while (j # 3) { x[j] := -j   j := j + 1; } p(x, j * 2); }" = Done [(183, 183, EParse MissingTrailingSemic)].
+Proof. vm_compute. split; reflexivity. Qed.
+(* ... and through the theorem *)
+Example C03_ex_missing_semicolon_instance :
+  diag_of "type v=array[3]of int;proc p(ref a:v,n:int){var i:int;i:=a[n]+1;if(i<2)p(a,i);}proc main(){var x:v;var j:int;// note
+j:=0;while(j#3){x[j]:=-j;j:=j+1}p(x,j*2);}" = Done [(148, 148, EParse MissingTrailingSemic)].
+Proof.
+  pose (toks := match lex (str "type v=array[3]of int;proc p(ref a:v,n:int){var i:int;i:=a[n]+1;if(i<2)p(a,i);}proc main(){var x:v;var j:int;// note
+j:=0;while(j#3){x[j]:=-j;j:=j+1}p(x,j*2);}") with Some l => l | None => [] end).
+  pose (tok := match nth_error toks 90 with Some x => x | None => {| tk := Eof; ts := 0; te := 0; terr := [] |} end).
+  change 148 with (te tok).
+  apply (C03_missing_semicolon_text sfx1 _ ex_table toks tok); [vm_compute; reflexivity | exact (proj1 C03_ex_missing_semicolon_wt) | vm_compute; reflexivity ..].
+Qed.
+Example C03_ex_missing_semicolon_instance2 :
+  diag_of "type v = array [3] of int; proc p(ref a: v, n: int) { var i: int; i := a[n] + 1; if (i < 2) p(a, i); }
+proc main() { var x: v; var j: int; // note
+  j := 0; while (j # 3) { x[j] := -j   j := j + 1; } p(x, j * 2); }" = Done [(183, 183, EParse MissingTrailingSemic)].
+Proof.
+  pose (toks := match lex (str "type v = array [3] of int; proc p(ref a: v, n: int) { var i: int; i := a[n] + 1; if (i < 2) p(a, i); }
+proc main() { var x: v; var j: int; // note
+  j := 0; while (j # 3) { x[j] := -j   j := j + 1; } p(x, j * 2); }") with Some l => l | None => [] end).
+  pose (tok := match nth_error toks 84 with Some x => x | None => {| tk := Eof; ts := 0; te := 0; terr := [] |} end).
+  change 183 with (te tok).
+  apply (C03_missing_semicolon_text sfx2 _ ex_table toks tok); [vm_compute; reflexivity | exact (proj2 C03_ex_missing_semicolon_wt) | vm_compute; reflexivity ..].
+Qed.
